@@ -238,8 +238,16 @@ def check_add_days(case):
 
 def check_difference(case):
     a, b = getdt(case[0]), getdt(case[1])
+    # whatever the serials are (January/February 1900 included): DAYS, the - operator, N and DATEVALUE see the same ones
+    env0 = Env(vars={'v_a': a, 'v_b': b})
+    r0 = env0.parse('{DAYS(v_a,v_b),v_a-v_b,N(v_a)-N(v_b),DATEVALUE(v_a)-DATEVALUE(v_b)}')
+    l = r0['result']
+    if r0['error'] is not None or not isinstance(l, list) or len(l) != 4 or any(isinstance(x, bool) or not isinstance(x, (int, float)) for x in l):
+        raise Violation('DAYS / - / N / DATEVALUE on v_a=%s v_b=%s -> %r' % (a, b, r0['error'] or l), r0['error'] or enc(l), 'four numbers')
+    if max(l) - min(l) > 2e-9:
+        raise Violation('DAYS(a,b), a-b, N(a)-N(b), DATEVALUE(a)-DATEVALUE(b) = %r for a=%s b=%s: they do not see the same serials' % (l, a, b), enc(l), None)
     if a < rd.MAR1_1900 or b < rd.MAR1_1900:
-        raise Skip('before-1mar1900')
+        return          # before 1 March 1900 only the agreement above is stated
     env = Env(vars={'v_a': a, 'v_b': b})
     want = rd.serial_exact(a) - rd.serial_exact(b)
     whole = a.time() == datetime.time(0) and b.time() == datetime.time(0)
@@ -289,9 +297,11 @@ LAWS = [
     Law('add_days', check_add_days, strategy=st.fixed_dictionaries({'d': dt_strategy(rd.MAR1_ORD), 'n': offsets}), quick=2000, thorough=100000,
         nontrivial=lambda c: c['n'] not in (0, 1) ,
         rule='date-time >= 1 March 1900 and offset n (boundary set, +-3e6 integers, dyadic fractions): date+n, n+date, date-n equal the reference date within 1 ms when it lies in 1 March 1900..9999'),
-    Law('difference', check_difference, strategy=st.tuples(dt_strategy(rd.MAR1_ORD), dt_strategy(rd.MAR1_ORD)).map(list), quick=2000, thorough=100000,
+    Law('difference', check_difference, strategy=st.one_of(st.tuples(dt_strategy(rd.MAR1_ORD), dt_strategy(rd.MAR1_ORD)), st.tuples(dt_strategy(rd.MAR1_ORD), dt_strategy(rd.MAR1_ORD)),
+                                                            st.tuples(dt_strategy(), dt_strategy())).map(list), quick=2000, thorough=100000,
+        classes=lambda c: (('straddles-1mar1900' if (getdt(c[0]) < rd.MAR1_1900) != (getdt(c[1]) < rd.MAR1_1900) else 'same-side'),), required=('straddles-1mar1900',),
         nontrivial=lambda c: c[0] != c[1],
-        rule='pairs of date-times >= 1 March 1900: a-b, DAYS(a,b), N(a)-N(b), DATEVALUE(a)-DATEVALUE(b) equal the days between them (exact for whole days); comparisons of a date with integers see its serial'),
+        rule='pairs of date-times from 1 January 1900 on: DAYS(a,b), a-b, N(a)-N(b), DATEVALUE(a)-DATEVALUE(b) agree with each other (also across the 1 March 1900 boundary); for pairs >= 1 March 1900 they equal the days between them (exact for whole days); comparisons of a date with integers on either side see its serial'),
 ]
 
 LEVEL_TEXT = 'The calendar-day quantifier is closed by exhaustive enumeration (all 2958464 days and all integer serials 61..2958465 through serialize_date/parse_date in both tiers; through parse() for every day in the thorough tier). Millisecond date-times, offsets and pairs are explored with Hypothesis.'
